@@ -585,6 +585,11 @@ fn cli_build(world: &World, rng: &mut Rng) -> Result<Option<(usize, Vec<u8>)>, S
         start = *end;
     }
     let out = dir.path.join("out.dic");
+    // in one run of three the output path already holds a (much larger) file from an earlier build
+    if rng.chance(1, 3) {
+        let junk: Vec<u8> = (0..(1usize << 20) + rng.below(4096)).map(|i| (i % 251) as u8).collect();
+        std::fs::write(&out, &junk).map_err(|e| format!("cannot prepare the output path: {}", e))?;
+    }
     let mut cmd = std::process::Command::new(&cli);
     cmd.arg("build").arg("-m").arg(dir.path.join("matrix.def")).arg("-o").arg(&out).arg("-d").arg(env::DESCRIPTION);
     for f in &files {
